@@ -25,6 +25,7 @@ import (
 	"strings"
 	"sync"
 	"time"
+	"unicode/utf8"
 
 	"github.com/cockroachdb/errors"
 	"github.com/samber/lo"
@@ -693,6 +694,11 @@ func (e *MetaCDC) validCreateRequest(req *request.CreateRequest) error {
 	}
 	if cacheParam.Size < 0 {
 		return servererror.NewClientError("the cache size is less zero")
+	}
+
+	if !utf8.ValidString(req.TaskID) {
+		// the task id is used as the metric label value and the meta key, which should be a valid utf-8 string
+		return servererror.NewClientError("the task id is not a valid utf-8 string")
 	}
 
 	if len(req.CollectionInfos) == 0 && len(req.DBCollections) == 0 {
